@@ -258,6 +258,13 @@ class Canon:
                 if fname in ("range", "np.arange", "numpy.arange") and len(n.args) == 2 and not n.keywords and const(n.args[0]) == 0 \
                         and isinstance(n.args[0], ast.Constant) and n.args[0].value is not False:
                     n.args = [n.args[1]]
+                if fname == "len" and len(n.args) == 1 and not n.keywords:
+                    a0 = n.args[0]
+                    while isinstance(a0, ast.Call) and (dotted(a0.func) or "") in ("tuple", "list") and len(a0.args) == 1 and not a0.keywords:
+                        a0 = a0.args[0]          # len(tuple(X)) ~ len(list(X)) ~ len(X)
+                    if isinstance(a0, ast.GeneratorExp):
+                        a0 = ast.ListComp(elt=a0.elt, generators=a0.generators)
+                    n.args = [a0]
                 if isinstance(n.func, ast.Attribute) and n.func.attr == "transpose" and not n.args and not n.keywords:
                     return ast.Attribute(value=n.func.value, attr="T", ctx=ast.Load())
                 return n
@@ -357,7 +364,17 @@ def atoms_of(test: ast.expr, truth: bool, c: Canon) -> List[FrozenSet[Atom]]:
         folded = _fold_constant_compare(test)
         if folded is not None:
             return [frozenset({f"const({folded == truth})"})] if (folded == truth) else []
-    return [frozenset({_lit(test, truth, c)})]
+    lit = _lit(test, truth, c)
+    # counts are non-negative integers:  1 < n  ~  n != 0 and n != 1 ;  not (1 < n)  ~  n == 0 or n == 1   (likewise n < 2)
+    m = re.fullmatch(r"(!?)lt\(1, (.*)\)", lit)
+    if m and _nonneg(m.group(2)):
+        t = m.group(2)
+        return [frozenset({f"!eq(0, {t})", f"!eq(1, {t})"})] if not m.group(1) else [frozenset({f"eq(0, {t})"}), frozenset({f"eq(1, {t})"})]
+    m = re.fullmatch(r"(!?)lt\((.*), 2\)", lit)
+    if m and _nonneg(m.group(2)):
+        t = m.group(2)
+        return [frozenset({f"eq(0, {t})"}), frozenset({f"eq(1, {t})"})] if not m.group(1) else [frozenset({f"!eq(0, {t})", f"!eq(1, {t})"})]
+    return [frozenset({lit})]
 
 
 def _fold_constant_compare(test: ast.Compare) -> Optional[bool]:
